@@ -173,6 +173,10 @@ pub struct OpenFinding {
     pub property: String,
     pub signature: String,
     pub what: String,
+    /// optional: the instance's description must contain this text too (narrows an entry to the
+    /// specific input / call site, so that another defect showing the same clause is still reported)
+    #[serde(default)]
+    pub detail_contains: Option<String>,
     #[serde(default)]
     pub example_replay: Option<String>,
 }
@@ -188,8 +192,8 @@ impl KnownFindings {
             Err(_) => Self::default(),
         }
     }
-    pub fn matches(&self, property: &str, signature: &str) -> Option<&OpenFinding> {
-        self.open.iter().find(|f| f.property == property && f.signature == signature)
+    pub fn matches(&self, property: &str, signature: &str, detail: &str) -> Option<&OpenFinding> {
+        self.open.iter().find(|f| f.property == property && f.signature == signature && f.detail_contains.as_ref().map(|d| detail.contains(d.as_str())).unwrap_or(true))
     }
 }
 
@@ -406,15 +410,23 @@ pub fn run_batch<E: Engine>(engine: &E, cfg: &BatchCfg) -> BatchReport {
 
     // classify violations by signature; earliest run index per signature is minimised
     a.found.sort_by_key(|f| f.run);
+    let known = KnownFindings::load(&cfg.verif_dir);
     let mut by_sig: BTreeMap<String, &Found<E::Sc>> = BTreeMap::new();
     let mut sig_count: BTreeMap<String, u64> = BTreeMap::new();
+    let mut known_hit: BTreeSet<String> = BTreeSet::new();
     for f in &a.found {
+        // instances covered by an open known finding are only announced; every other instance
+        // (also of the same signature) competes for being minimised and reported
+        if let Some(k) = known.matches(engine.property(), &f.violation.signature, &f.violation.detail) {
+            if known_hit.insert(k.what.clone()) {
+                println!("KNOWN-FINDING: property={} {}", engine.property(), k.what);
+            }
+            continue;
+        }
         *sig_count.entry(f.violation.signature.clone()).or_insert(0) += 1;
         by_sig.entry(f.violation.signature.clone()).or_insert(f);
     }
-    let known = KnownFindings::load(&cfg.verif_dir);
     let mut exit_code = 0;
-    let mut known_hit: BTreeSet<String> = BTreeSet::new();
     let mut reported = vec![];
     // evidence and replays normally live in the verification directory; experiments (seeded
     // changes, self-tests) redirect them so that committed evidence is never overwritten
@@ -422,12 +434,6 @@ pub fn run_batch<E: Engine>(engine: &E, cfg: &BatchCfg) -> BatchReport {
     let replay_dir = out_dir.join("replays");
     let _ = std::fs::create_dir_all(&replay_dir);
     for (sig, f) in by_sig.iter().take(12) {
-        if let Some(k) = known.matches(engine.property(), sig) {
-            if known_hit.insert(sig.clone()) {
-                println!("KNOWN-FINDING: property={} {}", engine.property(), k.what);
-            }
-            continue;
-        }
         let (min_sc, min_out) = minimise(engine, &f.sc, sig, cfg.shrink_budget);
         let v = min_out.violation.clone().unwrap();
         let rf = ReplayFile {
@@ -491,7 +497,7 @@ pub fn run_batch<E: Engine>(engine: &E, cfg: &BatchCfg) -> BatchReport {
         },
         "assumptions": engine.assumptions(),
         "wall_s": wall,
-        "violations": if exit_code == 0 { 0 } else { by_sig.len() as i64 - known_hit.len() as i64 },
+        "violations": by_sig.len() as i64,
     });
     let evdir = out_dir.join("evidence");
     let _ = std::fs::create_dir_all(&evdir);
@@ -510,7 +516,7 @@ pub fn run_batch<E: Engine>(engine: &E, cfg: &BatchCfg) -> BatchReport {
         println!("note: probes stuck at zero in this batch: {missing_probes:?}");
     }
     if exit_code == 0 {
-        println!("OK property={} held on everything explored", engine.property());
+        println!("OK property={} held on everything explored{}", engine.property(), if known_hit.is_empty() { "" } else { " (apart from the known findings announced above)" });
     }
     BatchReport { exit_code }
 }
@@ -574,7 +580,7 @@ pub fn replay_with<E: Engine>(engine: &E, rf: &ReplayFile, path: &Path) -> i32 {
             }
             if std::env::var("VERIF_REPLAY_QUIET").is_err() {
                 let known = KnownFindings::load(&verif_dir());
-                if let Some(k) = known.matches(&rf.property, &v.signature) {
+                if let Some(k) = known.matches(&rf.property, &v.signature, &v.detail) {
                     println!("KNOWN-FINDING: property={} {}", rf.property, k.what);
                     return 0;
                 }
